@@ -8,12 +8,15 @@ import (
 
 // ---- E14-M5 ForceDuration: cut index and filler decision (added after seeded changes C14/1, C14/2) -----
 // (c) the cut `s.Items = s.Items[:k]` uses an index k found by a scan; when the guard of the cut is
-//     a test on k itself, the value k has when nothing was found must not be a possible index:
-//     every constant that can flow into k is negative (with 0 as "not found", a first cue that starts
-//     at or after d is never removed).
+//
+//	a test on k itself, the value k has when nothing was found must not be a possible index:
+//	every constant that can flow into k is negative (with 0 as "not found", a first cue that starts
+//	at or after d is never removed).
+//
 // (d) the decision to append the filler must see the list as it is after the cut: the filler append
-//     is reachable from the cut, and among the Duration() calls compared with d on the way to it at
-//     least one is evaluated after the cut (not all cached from before the trimming).
+//
+//	is reachable from the cut, and among the Duration() calls compared with d on the way to it at
+//	least one is evaluated after the cut (not all cached from before the trimming).
 func reachableFrom(b *ssa.BasicBlock) map[*ssa.BasicBlock]bool {
 	seen := map[*ssa.BasicBlock]bool{}
 	var walk func(x *ssa.BasicBlock)
@@ -39,6 +42,12 @@ func constEdges(v ssa.Value, seen map[ssa.Value]bool, out *[]int64) {
 		return
 	}
 	if ph, ok := v.(*ssa.Phi); ok {
+		// a loop counter (phi(c, phi+1)) holds real indices, not a "not found" marker
+		for _, e := range ph.Edges {
+			if bo, ok := e.(*ssa.BinOp); ok && (bo.X == ssa.Value(ph) || bo.Y == ssa.Value(ph)) {
+				return
+			}
+		}
 		for _, e := range ph.Edges {
 			constEdges(e, seen, out)
 		}
@@ -72,7 +81,7 @@ func ruleForceDurationScan(p *Prog, l *Ledger, tier string) {
 	}
 	// the cut and the filler
 	var cut, filler *ssa.Store
-	for _, b := range fn.Blocks {
+	for _, b := range p.helperBlocks(fn) {
 		for _, ins := range b.Instrs {
 			st, ok := ins.(*ssa.Store)
 			if !ok {
@@ -97,6 +106,12 @@ func ruleForceDurationScan(p *Prog, l *Ledger, tier string) {
 		l.Undecide(rule, name, rule+"|shape", "", "the truncation s.Items = s.Items[:k] or the filler append was not found in ForceDuration")
 		return
 	}
+	// where the cut and the filler happen as seen from ForceDuration (the call of the helper that holds them)
+	cutSite, fillerSite := p.siteIn(fn, cut), p.siteIn(fn, filler)
+	if cutSite == nil || fillerSite == nil {
+		l.Undecide(rule, name, rule+"|shape", "", "the helper holding the cut or the filler is called from more than one place in ForceDuration")
+		return
+	}
 	// (c)
 	k := cut.Val.(*ssa.Slice).High
 	keyC := rule + "|sentinel"
@@ -109,6 +124,8 @@ func ruleForceDurationScan(p *Prog, l *Ledger, tier string) {
 	var consts []int64
 	constEdges(k, map[ssa.Value]bool{}, &consts)
 	switch {
+	case !guardOnK && len(dominatingConds(cut.Block())) == 0 && len(consts) > 0:
+		l.Fail(rule, name, keyC, p.Pos(cut.Pos()), fmt.Sprintf("%s: the cut is unconditional and its index holds the constant(s) %v when no cue starts at or after d: the list is truncated there although nothing has to be removed", name, consts))
 	case !guardOnK:
 		l.Prove(rule, name, keyC, p.Pos(cut.Pos()), "the cut is not guarded by a test on the index itself (a separate found flag or an unconditional cut)")
 	default:
@@ -126,13 +143,13 @@ func ruleForceDurationScan(p *Prog, l *Ledger, tier string) {
 	}
 	// (d)
 	keyD := rule + "|filler-after-cut"
-	after := reachableFrom(cut.Block())
-	if !after[filler.Block()] {
+	after := reachableFrom(cutSite.Block())
+	if !after[fillerSite.Block()] && !(cutSite.Block() == fillerSite.Block() && instrIndex(cutSite) < instrIndex(fillerSite)) {
 		l.Fail(rule, name, keyD, p.Pos(filler.Pos()), name+": the filler append cannot be reached once cues have been cut: when d falls in a gap (or before every cue) the trimmed list ends before d and no filler is added although one was requested")
 	} else {
 		// Duration() calls compared with d that gate the filler
 		stale, fresh := "", 0
-		for _, dc := range dominatingConds(filler.Block()) {
+		for _, dc := range dominatingConds(fillerSite.Block()) {
 			bo, ok := dc.cond.(*ssa.BinOp)
 			if !ok {
 				continue
@@ -145,7 +162,7 @@ func ruleForceDurationScan(p *Prog, l *Ledger, tier string) {
 				if sc := c.Call.StaticCallee(); sc == nil || FnName(sc) != "Subtitles.Duration" {
 					continue
 				}
-				if !after[c.Block()] && c.Block() != cut.Block() {
+				if !after[c.Block()] && !(c.Block() == cutSite.Block() && instrIndex(cutSite) < instrIndex(c)) {
 					stale = p.Pos(c.Pos())
 				} else {
 					fresh++
@@ -159,4 +176,48 @@ func ruleForceDurationScan(p *Prog, l *Ledger, tier string) {
 		}
 	}
 	l.Min(rule, 2, 2)
+}
+
+func instrIndex(ins ssa.Instruction) int {
+	for k, x := range ins.Block().Instrs {
+		if x == ins {
+			return k
+		}
+	}
+	return -1
+}
+
+// siteIn: the instruction of fn at which ins happens: ins itself when it belongs to fn, otherwise the
+// single call in fn whose callee (transitively) contains it; nil when there are several.
+func (p *Prog) siteIn(fn *ssa.Function, ins ssa.Instruction) ssa.Instruction {
+	if ins.Parent() == fn {
+		return ins
+	}
+	var site ssa.Instruction
+	for _, b := range fn.Blocks {
+		for _, x := range b.Instrs {
+			var callee *ssa.Function
+			switch c := x.(type) {
+			case ssa.CallInstruction:
+				callee = c.Common().StaticCallee()
+				if callee == nil {
+					if mc, ok := c.Common().Value.(*ssa.MakeClosure); ok {
+						callee, _ = mc.Fn.(*ssa.Function)
+					}
+				}
+			}
+			if callee == nil {
+				continue
+			}
+			for _, h := range p.Helpers(callee) {
+				if h == ins.Parent() {
+					if site != nil && site != x {
+						return nil
+					}
+					site = x
+				}
+			}
+		}
+	}
+	return site
 }
